@@ -103,6 +103,15 @@ macro_rules! call_u {
     };
 }
 
+/// A panic escaping a case (the cases catch the panics they provoke themselves) is a violation of
+/// the family's properties, not a harness error.
+fn guarded(props: &'static str, f: impl FnOnce() -> R) -> R {
+    match catch(f) {
+        Ok(r) => r,
+        Err(msg) => viol(props, "panic", format!("the library panicked: {}", msg)),
+    }
+}
+
 fn engine_shapes(args: &Args) -> i32 {
     let seed = args.u64("seed", 1);
     let fam = args.str("fam", "all");
@@ -141,7 +150,7 @@ fn engine_shapes(args: &Args) -> i32 {
                                 continue;
                             }
                             total += 1;
-                            let res = dispatch_b(hi, ti, len, c, r, &mut st);
+                            let res = guarded("C05,C06", || dispatch_b(hi, ti, len, c, r, &mut st));
                             report(
                                 res,
                                 &mut st,
@@ -163,7 +172,7 @@ fn engine_shapes(args: &Args) -> i32 {
                             continue;
                         }
                         total += 1;
-                        let res = dispatch_c(ti, len, c, r, &mut st);
+                        let res = guarded("C05,C06", || dispatch_c(ti, len, c, r, &mut st));
                         report(
                             res,
                             &mut st,
@@ -180,7 +189,7 @@ fn engine_shapes(args: &Args) -> i32 {
                     continue;
                 }
                 total += 1;
-                let res = shapes::case_str(len, c, &mut st);
+                let res = guarded("C05,C06", || shapes::case_str(len, c, &mut st));
                 report(res, &mut st, &mut nviol, format!("str len={} c={}", len, c));
             }
         }
@@ -193,7 +202,7 @@ fn engine_shapes(args: &Args) -> i32 {
                         continue;
                     }
                     total += 1;
-                    let res = sized_list!(call_a, si, c, r, &mut st);
+                    let res = guarded("C05,C11", || sized_list!(call_a, si, c, r, &mut st));
                     report(
                         res,
                         &mut st,
@@ -218,7 +227,7 @@ fn engine_shapes(args: &Args) -> i32 {
                             .wrapping_mul(1000)
                             .wrapping_add(s)
                             .wrapping_add((ai * NS + bi) as u64 * 7919);
-                        let res = sized_list!(call_u, ai, bi, v, script, &mut st);
+                        let res = guarded("C12", || sized_list!(call_u, ai, bi, v, script, &mut st));
                         report(
                             res,
                             &mut st,
@@ -232,7 +241,7 @@ fn engine_shapes(args: &Args) -> i32 {
     }
     if (fam == "all" || fam == "o") && shard == 0 {
         total += 1;
-        let res = shapes::overflow_cases(&mut st);
+        let res = guarded("C05", || shapes::overflow_cases(&mut st));
         report(res, &mut st, &mut nviol, "overflow".to_string());
     }
     st.counts.add("shapes.cases", total);
